@@ -1,5 +1,6 @@
 """C06 duty store: theorems in coq/Properties/C06.v; correspondence = trace inclusion of the label
 sequences recorded from core/dutydb/memory.go in the model coq/Stores/DutyDB.v."""
+import glob
 import json
 import os
 import re
@@ -19,19 +20,31 @@ Definition cases : list (nat * list label) := [
 %s
 ].
 Definition rejects := Eval vm_compute in
-  flat_map (fun c => match first_reject false init (snd c) 0 with Some i => [(fst c, i)] | None => [] end) cases.
+  flat_map (fun c => match first_reject_diag init (snd c) 0 with Some (i, code) => [(fst c, i, code)] | None => [] end) cases.
 Definition monitor_hits := Eval vm_compute in
   flat_map (fun c => match first_violation ginit (snd c) 0 with Some i => [(fst c, i)] | None => [] end) cases.
-Definition disciplined_ids := Eval vm_compute in
-  flat_map (fun c => if disciplined (snd c) then [fst c] else []) cases.
+Definition disciplined_count := Eval vm_compute in
+  length (filter (fun c => disciplined (snd c)) cases).
 Print rejects.
 Print monitor_hits.
-Print disciplined_ids.
+Print disciplined_count.
 """ % ";\n".join(rows)
 
 
 def pairs(term):
-    return [(int(a), int(b)) for a, b in re.findall(r"\((\d+)%?n?a?t?, (\d+)%?n?a?t?\)", term or "")]
+    return [(int(a), int(b)) for a, b in re.findall(r"\(\s*(\d+)(?:%nat)?\s*,\s*(\d+)(?:%nat)?\s*\)", term or "")]
+
+
+def triples(term):
+    return [(int(a), int(b), int(c)) for a, b, c in
+            re.findall(r"\(\s*(\d+)(?:%nat)?\s*,\s*(\d+)(?:%nat)?\s*,\s*(\d+)(?:%N)?\s*\)", term or "")]
+
+
+DIAG = {
+    1: ("model:clash-accepted", "a datum that conflicts with what is stored was not rejected (the model expects a clash error)"),
+    2: ("model:reader-not-woken", "quiescence although the key of a waiting reader is stored (a satisfiable query stays blocked)"),
+    3: ("model:answer-differs", "a reader got other content than the value stored first for its key"),
+}
 
 
 def nats(term):
@@ -87,14 +100,16 @@ def main():
     R.add_samples([{"script": h["script"], "labels": h["labels"]} for h in hs if h.get("nontrivial")][:2])
     byid = {h["id"]: h for h in hs}
     ndisc = 0
+    for old in glob.glob(os.path.join(vp.COQ, "gen", "cases_C06_*")):   # stale shards of an earlier (larger) run
+        os.remove(old)
     for shard_i, shard in enumerate(vp.chunks(hs, 1000)):
         rc, out = vp.coq_eval("C06_%d" % shard_i, cases_v(shard))
         if rc != 0:
             R.broke("correspondence:cases_C06 does not compile", out[-3000:])
             continue
-        rej = pairs(vp.parse_marked(out, "rejects"))
+        rej = triples(vp.parse_marked(out, "rejects"))
         hits = pairs(vp.parse_marked(out, "monitor_hits"))
-        ndisc += len(nats(vp.parse_marked(out, "disciplined_ids")))
+        ndisc += sum(nats(vp.parse_marked(out, "disciplined_count")))
         for cid, idx in hits:
             h = byid[cid]
             lab = h["labels"][idx] if idx < len(h["labels"]) else "?"
@@ -105,10 +120,16 @@ def main():
                         {"script": h["script"], "labels": h["labels"], "index": idx,
                          "how": "./check C06 --replay <this file> re-runs the script against /repo"})
         hit_ids = {c for c, _ in hits}
-        for cid, idx in rej:
+        for cid, idx, code in rej:
             if cid in hit_ids:
                 continue
             h = byid[cid]
+            lab = h["labels"][idx] if idx < len(h["labels"]) else "?"
+            if code in DIAG:
+                R.violation(DIAG[code][0], "%s at label %d (%s)" % (DIAG[code][1], idx, lab),
+                            {"script": h["script"], "labels": h["labels"], "index": idx,
+                             "how": "./check C06 --replay <this file> re-runs the script against /repo"})
+                continue
             R.broke("correspondence:DutyDB model rejects observed trace %d at label %d (%s)" % (cid, idx, h["labels"][idx] if idx < len(h["labels"]) else "?"),
                     json.dumps({"script": h["script"], "labels": h["labels"]}))
     R.coverage["input_distribution"] = {
